@@ -206,6 +206,11 @@ type wana struct {
 	byLit        map[*ast.FuncLit]*wfunc
 	// static calls of a function of the module from its own package
 	callSites map[string][]callSite
+	// functions of the module used otherwise than as the callee of a static call (method value,
+	// function value handed on): their call sites are not all known
+	usedAsValue map[*types.Func]bool
+	// nodes reachable from the compare roots (call graph of main.go)
+	reach map[string]bool
 }
 
 type callSite struct {
@@ -768,7 +773,7 @@ func loadPackages(goDir string) chan loaded {
 	return ch
 }
 
-func analyseWriters(ld loaded, raw map[string]map[string]bool) ([]wrow, map[string]map[int]bool, []iocall) {
+func analyseWriters(ld loaded, raw map[string]map[string]bool, reach map[string]bool) ([]wrow, map[string]map[int]bool, []iocall) {
 	pkgs, err := ld.pkgs, ld.err
 	if err != nil {
 		problem("go/packages: %v", err)
@@ -776,7 +781,7 @@ func analyseWriters(ld loaded, raw map[string]map[string]bool) ([]wrow, map[stri
 	}
 	a := &wana{funcs: map[string]*wfunc{}, byObj: map[*types.Func]*wfunc{}, carriers: map[string]map[int]bool{}, raw: raw,
 		sinks: map[string]map[int]map[string]bool{}, devPkgs: map[string]bool{}, fieldAssigns: map[*types.Var][]fieldAssign{},
-		byLit: map[*ast.FuncLit]*wfunc{}, callSites: map[string][]callSite{}}
+		byLit: map[*ast.FuncLit]*wfunc{}, callSites: map[string][]callSite{}, usedAsValue: map[*types.Func]bool{}, reach: reach}
 	var roots []*wfunc
 	packages.Visit(pkgs, nil, func(p *packages.Package) {
 		if !strings.HasPrefix(p.PkgPath, mod) {
@@ -969,17 +974,36 @@ func sinkName(ext string, i int) string {
 	return fmt.Sprintf("%s#%d", ext, i)
 }
 
-// collectCallSites: static calls of functions / methods of the same package (not of closures)
+// collectCallSites: static calls of functions / methods of the same package (not of closures), and
+// which functions of the module are used as values
 func (a *wana) collectCallSites(f *wfunc) {
+	callee := map[*ast.Ident]bool{}
 	ast.Inspect(f.body, func(n ast.Node) bool {
 		switch v := n.(type) {
 		case *ast.FuncLit:
 			return false
 		case *ast.CallExpr:
+			switch x := ast.Unparen(v.Fun).(type) {
+			case *ast.Ident:
+				callee[x] = true
+			case *ast.SelectorExpr:
+				callee[x.Sel] = true
+			}
 			if fo := calleeFunc(f.info, v); fo != nil {
 				if g := a.byObj[fo.Origin()]; g != nil && g.pkgPath == f.pkgPath {
 					a.callSites[g.name] = append(a.callSites[g.name], callSite{f, v})
 				}
+			}
+		}
+		return true
+	})
+	ast.Inspect(f.body, func(n ast.Node) bool {
+		switch v := n.(type) {
+		case *ast.FuncLit:
+			return false
+		case *ast.Ident:
+			if fo, ok := f.info.Uses[v].(*types.Func); ok && !callee[v] {
+				a.usedAsValue[fo.Origin()] = true
 			}
 		}
 		return true
